@@ -1417,6 +1417,10 @@ impl Pc {
                     c.read_new(id, off, len)
                 } else {
                     let mut b = pool.get();
+                    if (off as usize + len) % 2 == 1 {
+                        // a caller-owned buffer that still holds the bytes of an earlier read
+                        b.copy_from_slice(&[0xEE; 37]);
+                    }
                     c.read(id, off, len, &mut b)?;
                     Ok(b)
                 }
